@@ -46,3 +46,9 @@ CORPUS = [
     M("n-humidity-ff", C, "        humidity = self.target_humidity & 0x7F", "        humidity = self.target_humidity & 0xFF", "S"),
     M("n-shift-form", C, "        mode = (self.operational_mode & 0x7) << 5", "        mode = (self.operational_mode << 5) & 0xE0", "S"),
 ]
+# round 3 (C10.f): the state the command encodes is the state that was requested
+CORPUS += [
+    M("humidity-or-default", "msmart/device/AC/device.py", "cmd.target_humidity = or_default(self._target_humidity, 40)", "cmd.target_humidity = self._target_humidity or 40"),
+    M("temperature-wrong-attr", "msmart/device/AC/device.py", "cmd.target_temperature = or_default(self._target_temperature, 25)", "cmd.target_temperature = or_default(self._indoor_temperature, 25)"),
+    M("n-power-or-false", "msmart/device/AC/device.py", "cmd.power_on = or_default(self._power_state, False)", "cmd.power_on = self._power_state or False", "S"),
+]
